@@ -17,7 +17,8 @@ CaseRec ==
    calls |-> CallsMade,
    srcenc |-> SrcEnc, dstenc |-> DstEnc,
    fail |-> fail,
-   nimg |-> IF fail = "" THEN Cardinality(Correspondence(ObsG, ObsD, Roots, ext).m) ELSE 0]
+   \* on the target as it is after Finish (the caller's stream closed, its queue written)
+   nimg |-> IF fail = "" THEN Cardinality(Correspondence(ObsG, ObsD', Roots', ext).m) ELSE 0]
 Emit == CSVWrite("%1$s", <<ToJson(CaseRec)>>, IOEnv.OUT)
 GenFinish == /\ Finish
              /\ (NoCopyYet /\ fail = "") \/ Emit
